@@ -98,7 +98,10 @@ def apply_rule(model, rule_name, commute=False):
 
     rs = rule_units()[rule_name]
     if commute:
-        rs = RewriteRuleSet(list(rs.rules), commute=True)
+        try:
+            rs = RewriteRuleSet(list(rs.rules), commute=True)
+        except Exception:  # noqa: BLE001  (e.g. variadic Min/Max patterns cannot be commuted: use the rule as exported)
+            pass
     mi = ir.serde.deserialize_model(model)
     try:
         count = rs.apply_to_model(mi)
@@ -137,14 +140,15 @@ def run_shard(spec):
     fired = [0]
 
     def body(case):
-        gm, seeds, commute = case
+        commute, gm = case
         if gm is None:
             col.skip("planter_declined")
             return
         if wellformed.check_model(gm.model):
             col.skip("host_invalid:" + rule)
             return
-        feeds_list = [gm.sample_feeds] + [gm.feeds(s) for s in seeds]
+        seeds = gm.seeds(3)
+        feeds_list = [gm.sample_feeds] + [gm.feeds(s) for s in seeds[:2]] + ([gm.feeds(seeds[2], override=True)] if gm.overridable else [])
         src = compare.Source(gm.model)
         a, b, _ = src.run(gm.sample_feeds)
         if a[0] != "ok" and b[0] != "ok":
@@ -164,7 +168,7 @@ def run_shard(spec):
             col.violation(bucket, detail, {"rule": rule, "model": optcommon.model_to_json(gm.model), "text": modelgen.model_text(gm.model, 4000),
                                            "feeds": [optcommon.feeds_to_json(x) for x in feeds_list], "features": gm.features, "commute": commute}, size=gm.n_nodes)
 
-    strat = st.tuples(st.sampled_from(planters).flatmap(host_models), st.lists(st.integers(0, 2**31 - 1), min_size=2, max_size=2), st.booleans())
+    strat = st.tuples(st.booleans(), st.sampled_from(planters).flatmap(host_models))
     drive(strat, body, spec["n"], spec["seed"])
     col.extra["fired_per_rule"] = {rule: fired[0]}
     return col.result()
